@@ -24,22 +24,23 @@ func init() { suites["lifecycle"] = suiteLifecycle }
 // lcRig: fake metadata server + fake inverting proxy (list calls logged) + backend with a
 // scripted /health and scripted latency, and the unmodified agent binary as a child.
 type lcRig struct {
-	mu         sync.Mutex
-	t0         time.Time
-	listTimes  []time.Duration // start time of every pending-list call
-	healthLog  []time.Duration
-	healthCode []int
-	script     []int // status codes for successive /health calls (last one repeats)
-	pendingIDs []string
-	latency    time.Duration
-	backendHit []time.Duration
-	responses  map[string][]byte
+	mu               sync.Mutex
+	t0               time.Time
+	listTimes        []time.Duration // start time of every pending-list call
+	healthLog        []time.Duration
+	healthCode       []int
+	script           []int // status codes for successive /health calls (last one repeats)
+	pendingIDs       []string
+	listFail         bool // the list endpoint answers 500 at once
+	latency          time.Duration
+	backendHit       []time.Duration
+	responses        map[string][]byte
 	meta, prox, back *httptest.Server
-	cmd        *exec.Cmd
-	out        *syncBuffer
-	exited     chan struct{}
-	exitAt     time.Duration
-	exitCode   int
+	cmd              *exec.Cmd
+	out              *syncBuffer
+	exited           chan struct{}
+	exitAt           time.Duration
+	exitCode         int
 }
 
 func newLcRig(script []int, latency time.Duration) *lcRig {
@@ -82,7 +83,12 @@ func newLcRig(script []int, latency time.Duration) *lcRig {
 		case strings.HasSuffix(q.URL.Path, "agent/pending"):
 			r.mu.Lock()
 			r.listTimes = append(r.listTimes, time.Since(r.t0))
+			bad := r.listFail
 			r.mu.Unlock()
+			if bad {
+				w.WriteHeader(500)
+				return
+			}
 			// long poll: answer as soon as something is pending, at the latest after 400 ms
 			for k := 0; k < 40; k++ {
 				r.mu.Lock()
@@ -323,6 +329,59 @@ func suiteLifecycle(e *vh.Env) {
 				}
 				e.Eval("signal/"+what, true)
 				e.Sample(map[string]interface{}{"scenario": what, "signal_ms": sigAt.Milliseconds(), "exit_after_signal_ms": after.Milliseconds(), "exit_status": r.exitCode, "list_calls": len(r.listTimes), "inflight_answered": len(r.responses["inflight"]) > 0})
+			}})
+		}
+	}
+	// --- shutdown while the proxy is failing: the polling loop is in its error/back-off branch when the signal arrives
+	for _, sg := range []syscall.Signal{syscall.SIGTERM, syscall.SIGINT} {
+		for _, failsBefore := range []int{1, 2, 4} {
+			if !e.Thorough() && (sg == syscall.SIGINT || failsBefore == 4) {
+				continue
+			}
+			sg, failsBefore := sg, failsBefore
+			scens = append(scens, scen{fmt.Sprintf("signal %v grace=3s proxy failing (%d failed list calls before)", sg, failsBefore), func(idx int) {
+				r := newLcRig([]int{200}, 0)
+				defer r.stop()
+				r.startAgent(e, "--graceful-shutdown-timeout=3s")
+				count := func() int { r.mu.Lock(); defer r.mu.Unlock(); return len(r.listTimes) }
+				for k := 0; k < 500 && count() < 2; k++ {
+					time.Sleep(10 * time.Millisecond)
+				}
+				if count() < 2 {
+					e.Fail("C20:never-polled", "agent did not start polling", idx, nil, nil, nil)
+					return
+				}
+				r.mu.Lock()
+				r.listFail = true
+				base := len(r.listTimes) // the call in flight now may still be answered by the healthy handler
+				r.mu.Unlock()
+				for k := 0; k < 1000 && count() < base+failsBefore; k++ {
+					time.Sleep(5 * time.Millisecond)
+				}
+				time.Sleep(20 * time.Millisecond) // the failed call has returned; the loop is backing off
+				sigAt := time.Since(r.t0)
+				r.cmd.Process.Signal(sg)
+				exited := r.waitExit(6 * time.Second)
+				r.mu.Lock()
+				defer r.mu.Unlock()
+				what := fmt.Sprintf("%v with grace 3s while the proxy answers every list call with 500 (%d failures before the signal)", sg, failsBefore)
+				if !exited {
+					e.Fail("C20:no-exit-after-signal", what+": the agent did not exit", idx, nil, nil, nil)
+					return
+				}
+				after := r.exitAt - sigAt
+				if after < 2900*time.Millisecond || after > 3900*time.Millisecond {
+					e.Fail("C20:graceful-exit-time", what+fmt.Sprintf(": exited %v after the signal", after), idx, nil, after.String(), nil)
+				}
+				// failing list calls return at once, so any list call that starts 250 ms or more after the signal is a new poll
+				for _, lt := range r.listTimes {
+					if lt > sigAt+250*time.Millisecond {
+						e.Fail("C20:polled-after-signal", what+fmt.Sprintf(": a list call started %v after the signal", lt-sigAt), idx, nil, nil, nil)
+						break
+					}
+				}
+				e.Eval("signal-failing/"+what, true)
+				e.Sample(map[string]interface{}{"scenario": what, "signal_ms": sigAt.Milliseconds(), "exit_after_signal_ms": after.Milliseconds(), "list_calls": len(r.listTimes)})
 			}})
 		}
 	}
